@@ -389,6 +389,7 @@ func main() {
 	args := common.ParseArgs()
 	rig.Quiet()
 	run := common.NewRun(args, "C27", "HV.Sdk.Hydrex")
+	run.Shard = 100
 	run.Meta.Rule = "non-trivial: the history changes the value of an existing key, removes a key by a later Save, or destroys a non-empty domain"
 	root, err := os.MkdirTemp("", "c27-")
 	if err != nil {
@@ -400,7 +401,7 @@ func main() {
 	hx := hydrex.New(sdk)
 
 	rng := common.NewRng(args.Seed, "C27")
-	n := 360
+	n := 320
 	if args.Tier == "thorough" {
 		n = 3000
 	}
